@@ -105,6 +105,7 @@ func c19(tier string) []*explore.Scenario {
 	for _, cp := range []int{0, 1, 2} {
 		out = append(out, c19Channel(cp, bound))
 	}
+	out = append(out, c19ChannelDoneCtxRead(1), c19ChannelDoneCtxRead(2), c19ChannelDoneCtxRead(0))
 	out = append(out, c19ChannelCtx(), c19HTTPShapes(), c19HTTPDuplex(), c19HTTPCtx(), c19HTTPWriteCtx(), c19HTTPRaw(), c19HTTPMapper(), c19HTTPResponseLost(), c19HTTPResetAcrossTimeout())
 	for _, pending := range []string{"sender", "reader", "both", "none", "reader-after-abandoned-read", "write-in-flight-at-tick"} {
 		out = append(out, c19HTTPIdle(pending, bound))
@@ -1105,6 +1106,54 @@ func c19HTTPDoubleFailure(order string, bound int) *explore.Scenario {
 			}
 			goh.Cancel()
 			vsched.Quiesce()
+		},
+	}
+}
+
+// c19ChannelDoneCtxRead: an envelope is ready AND the reader's context is already done: Read
+// may return either - but an envelope it does not return is not consumed: the next Read (live
+// context) returns it. Envelopes written (Write returned nil) are delivered, equal, in order.
+func c19ChannelDoneCtxRead(capn int) *explore.Scenario {
+	fam := "C19/channel"
+	return &explore.Scenario{
+		Name: fmt.Sprintf("C19/channel/done-context-read/cap=%d", capn), Family: fam, Prop: "C19", Bound: 2,
+		Run: func() {
+			in, out := make(chan *goat.Rpc, capn), make(chan *goat.Rpc, capn)
+			rw := goat.NewGoatOverChannel(in, out)
+			peer := goat.NewGoatOverChannel(out, in)
+			vsched.Explore(true)
+			vsched.GoNamed("writer", func() { // one writer: 1 then 2 is the write order
+				peer.Write(context.Background(), &goat.Rpc{Id: 1})
+				peer.Write(context.Background(), &goat.Rpc{Id: 2})
+			})
+			vsched.Quiesce()
+			dead, cancel := context.WithCancel(context.Background())
+			cancel()
+			var got []uint64
+			for attempt := 0; attempt < 2; attempt++ {
+				r, err := rw.Read(dead)
+				if err == nil {
+					got = append(got, r.GetId())
+				}
+			}
+			for len(got) < 2 {
+				rctx, rc := context.WithTimeout(context.Background(), time.Second)
+				done := false
+				var r *goat.Rpc
+				var err error
+				vsched.GoNamed("reader", func() { r, err = rw.Read(rctx); done = true })
+				vsched.QuiesceTime()
+				rc()
+				if !done || err != nil {
+					vsched.Fail(fam+"|lost", "two envelopes were written; Reads under a done context returned %v; a Read with a live context then found nothing (%v): an envelope was consumed by a Read that reported an error", got, err)
+					return
+				}
+				got = append(got, r.GetId())
+			}
+			vsched.Obs("got %v", got)
+			if fmt.Sprint(got) != "[1 2]" {
+				vsched.Fail(fam+"|order", "envelopes read %v, written [1 2]", got)
+			}
 		},
 	}
 }
